@@ -14,7 +14,7 @@
 
 namespace cm {
 
-static const time_t FOREVER = 2000000000; // "no deadline" in the alphabet
+static const time_t FOREVER = (time_t)9000000000LL; // "no deadline" in the alphabet (beyond every clock the passes use, incl. the 2039 sub-passes)
 
 struct Entry { std::string key; int value; std::set<std::string> trig; /* incl. key */ time_t deadline; int seq;
 	bool operator<(const Entry &o) const { if(key!=o.key) return key<o.key; if(value!=o.value) return value<o.value; if(trig!=o.trig) return trig<o.trig; if(deadline!=o.deadline) return deadline<o.deadline; return seq<o.seq; } };
